@@ -85,8 +85,9 @@ Crash == /\ Is("crash")
          /\ phase' = "crashed" /\ lastcls' = "crash" /\ crashes' = crashes + 1
          /\ inflight' = <<Ev.f, Ev.i>>       \* the statement in flight at the crash point (0,0 if none)
          /\ UNCHANGED <<c, cid, dj, dr, dump, startdump, startj, startr, lastdry, fixed, failed, fb, cmds, viol>>
-Fix == /\ Is("fix") /\ fixed' = TRUE
-       /\ UNCHANGED <<c, cid, dj, dr, dump, startdump, startj, startr, phase, lastcls, lastdry, failed, fb, crashes, inflight, cmds, viol>>
+\* the repair may also change the length of the file (Ev.nst: the statement counts from now on)
+Fix == /\ Is("fix") /\ fixed' = TRUE /\ c' = [c EXCEPT !.nst = Ev.nst]
+       /\ UNCHANGED <<cid, dj, dr, dump, startdump, startj, startr, phase, lastcls, lastdry, failed, fb, crashes, inflight, cmds, viol>>
 \* the database as read by the independent client after the command ended (or was killed)
 Disk == /\ Is("disk")
         /\ dj' = Ev.journal /\ dr' = Ev.revs /\ dump' = Ev.dump /\ UNCHANGED startdump
